@@ -14,7 +14,7 @@ import (
 //	sliceio/reader.go             var defaultChunksize = defaultsize.Chunk
 //	sliceio/spiller.go            var SpillBatchSize = defaultChunksize
 //	sortio/reader.go              var defaultChunksize = defaultsize.Chunk
-//	sortio/sort.go                var numCanaryRows = &defaultsize.SortCanary;  "> 0.05" in SortReader
+//	sortio/sort.go                var numCanaryRows = &defaultsize.SortCanary;  "> 0.05", "< 1", "= 1" in SortReader
 func init() {
 	specs = append(specs, spec{"C10_params.v", genC10})
 }
@@ -135,6 +135,8 @@ func genC10(repo string, e *emitter) {
 		return true
 	})
 	fmt.Fprintf(&e.b, "Definition sort_reader_float_literals : list (Z * Z) := [%s].\n", c10JoinSemi(fracs))
+	// the integer literals of SortReader: the clamp `if bytesPerRow < 1 { bytesPerRow = 1 }`
+	intLitsInFunc(repo, e, "sortio", "SortReader", "sort_reader_int_literals")
 }
 
 func c10JoinSemi(xs []string) string {
